@@ -97,11 +97,17 @@ void BindFreeRadicals(Typification::Substitutes& substitutes, const Typification
 namespace details {
 
 bool TypeEnv::IsArithmetic(const Typification& type) const {
+  if (type.IsAnyType()) { // Note: nothing is known about the operand - it is merged with type of the other one
+    return true;
+  }
   const auto traits = context.TraitsFor(type);
   return traits.has_value() && traits.value().isOperable;
 }
 
 bool TypeEnv::IsOrdered(const Typification& type) const {
+  if (type.IsAnyType()) { // Note: nothing is known about the operand - it is compatible with type of the other one
+    return true;
+  }
   const auto traits = context.TraitsFor(type);
   return traits.has_value() && traits.value().isOrdered;
 }
